@@ -27,7 +27,8 @@ type Kind string
 
 // User is the registered table struct.
 type User struct {
-	Id     int64 `sql:",primary"`
+	Digest []byte // sorts before every other column name
+	Id     int64  `sql:",primary"`
 	OrgId  int64
 	Name   string
 	Nick   *string
@@ -36,7 +37,7 @@ type User struct {
 	Active bool
 }
 
-var userCols = []string{"id", "org_id", "name", "nick", "age", "kind", "active"}
+var userCols = []string{"digest", "id", "org_id", "name", "nick", "age", "kind", "active"}
 
 func newSchema() *sqlgen.Schema {
 	s := sqlgen.NewSchema()
@@ -61,7 +62,8 @@ func seedUsers(c *runner.Ctx, d *mdb, n int) {
 			nick = "bc"
 		}
 		t.rows = append(t.rows, mrow{
-			"id": int64(i + 1), "org_id": int64(1 + c.Choose(2, "org")), "name": []string{"ann", "bob", "a", "ab"}[c.Choose(4, "name")],
+			"digest": []byte([]string{"d1", "d2"}[c.Choose(2, "digest")]),
+			"id":     int64(i + 1), "org_id": int64(1 + c.Choose(2, "org")), "name": []string{"ann", "bob", "a", "ab"}[c.Choose(4, "name")],
 			"nick": nick, "age": int64(20 + 10*c.Choose(2, "age")), "kind": []string{"k1", "k2"}[c.Choose(2, "kind")], "active": c.Choose(2, "active") == 1,
 		})
 		t.autoInc = int64(i + 1)
@@ -75,7 +77,7 @@ func genFilter(c *runner.Ctx, maxCols int) (sqlgen.Filter, string) {
 	f := sqlgen.Filter{}
 	var desc []string
 	n := c.Choose(maxCols+1, "filter-cols")
-	cols := []string{"id", "org_id", "name", "nick", "age", "kind", "active"}
+	cols := []string{"id", "org_id", "name", "nick", "age", "kind", "active", "digest"}
 	for i := 0; i < n; i++ {
 		col := cols[c.Choose(len(cols), "filter-col")]
 		if _, dup := f[col]; dup {
@@ -113,6 +115,8 @@ func genFilter(c *runner.Ctx, maxCols int) (sqlgen.Filter, string) {
 		case "active":
 			x := c.Choose(2, "filter-active") == 1
 			v = []interface{}{x, &x, x}[rep]
+		case "digest":
+			v = []byte([]string{"d1", "d2"}[c.Choose(2, "filter-digest")])
 		}
 		f[col] = v
 		desc = append(desc, fmt.Sprintf("%s=%s", col, repr(v)))
@@ -143,7 +147,7 @@ func userString(u *User) string {
 	if u.Nick != nil {
 		nick = *u.Nick
 	}
-	return fmt.Sprintf("{%d org=%d %s nick=%s age=%d %s %v}", u.Id, u.OrgId, u.Name, nick, u.Age, u.Kind, u.Active)
+	return fmt.Sprintf("{%d org=%d %s nick=%s age=%d %s %v %s}", u.Id, u.OrgId, u.Name, nick, u.Age, u.Kind, u.Active, u.Digest)
 }
 
 func usersString(us []*User) string {
